@@ -210,6 +210,13 @@ fn run_crash(seed: u64, id: usize, maxlen: usize, scripted: Option<Vec<CAct>>) -
                     if let Err(e) = block_on(rep.rebuild_working_set(false)) {
                         problems.push(format!("rebuild after {:?} failed: {e:#}", act));
                     }
+                    // undo and sync are two transactions: caught between them the replica has the
+                    // tasks and operations of the after-state with the working set of the before-state.
+                    // When the rebuild changes the working set, that is neither of the two states.
+                    let done = read_view(&dir, &ctl);
+                    if done.ws != seen.ws {
+                        problems.push(format!("[two-transaction-action] {:?} abandoned at storage call {idx}: tasks and operations are those after the action, the working set {:?} is still the one before it (after the action: {:?})", act, seen.ws, done.ws));
+                    }
                     break;
                 }
                 if !okay {
